@@ -414,6 +414,54 @@ def check_monitor(ctx, st):
     return mism, len(cases)
 
 
+REPLAY_FIELDS = ["done", "left", "stuck_thread", "stuck_event_index", "stuck_hidden_kind", "head", "tail", "pend", "pool", "sval",
+                 "ksem", "chain_len", "unclaimed", "pushes", "claims", "callouts", "inv_code"]
+INV_CLAUSES = ["chain has no repetition", "chain holds items only", "tail = last of chain", "do_next of the last item is NULL",
+               "links (do_next or in-flight link store)", "front (head / mediator holder / in-flight head store)",
+               "push history = claim history ++ unclaimed", "per-thread list invariants", "support has no repetition",
+               "poke arguments", "semaphore ranges", "semaphore balance", "dgq_pending accounting", "dgq_thread_pool_size accounting",
+               "no lost wake-up (token or banked signal)"]
+
+
+def from_hex(x):
+    return -int(x[1:], 16) if x.startswith("-") else int(x, 16)
+
+
+def global_replay(run, threads, window=48):
+    """threads: list of (thr, kind, events) of ONE harness run, monitor surgery done.  The whole run is replayed on the global
+    model RootQ.gstep (RootQR.replay, extracted): returns (dict of REPLAY_FIELDS, number of actions, rejected threads)"""
+    import subprocess
+    exe, msg = common.build_ocaml("c01_root_driver.ml", extracted=("rootq_model",))
+    if exe is None:
+        raise RuntimeError(msg)
+    # pthread_create k (in time order of the successful cmpxchg on the pool size) starts the k-th worker (in order of first event)
+    creates = sorted((e.seq, thr) for (thr, kind, evs) in threads for e in evs
+                     if e.kind == 5 and e.obj == 1 and e.off == run.off_pool and (e.ok & 1))
+    workers = sorted((evs[0].seq, thr) for (thr, kind, evs) in threads if kind == "worker")
+    target = {}
+    for k, (sq, thr) in enumerate(creates):
+        target.setdefault(thr, []).append(workers[k][1] + 1 if k < len(workers) else 100000 + k)
+    lines = []
+    for (thr, kind, evs) in threads:
+        lines.append("R %x %x %s" % (thr + 1, 1 if kind == "worker" else 0, " ".join("%x" % u for u in target.get(thr, []))))
+        for e in evs:
+            stamp = 2 * e.seq - (1 if e.line == 0 and e.kind == 100 and e.a == 1 else 0)   # the synthetic monitor call sits before its probe
+            lines.append("F %x %s %s %s %s %s %s %s %x" % (stamp, hexz(e.kind), hexz(e.order), hexz(e.obj), hexz(e.off), hexz(e.size),
+                                                          hexz(e.a), hexz(e.b), e.ok & 1))
+        lines.append(".")
+    lines.append("G %d %x %d" % (run.oc, run.pool0, window))
+    r = subprocess.run([exe], input="\n".join(lines) + "\n", stdout=subprocess.PIPE, stderr=subprocess.PIPE, text=True, timeout=600)
+    if r.returncode != 0:
+        raise RuntimeError("replay driver failed: " + r.stderr[-1500:])
+    out = r.stdout.strip().split("|")
+    nact, nrej = [int(x) for x in out[0].split()]
+    vals = [from_hex(x) for x in out[1].split()]
+    res = dict(zip(REPLAY_FIELDS, vals))
+    rest = vals[len(REPLAY_FIELDS):]
+    res["pending_next"] = [(rest[i] - 1, rest[i + 1], rest[i + 2]) for i in range(0, len(rest) - 2, 3)]   # (thread, event index, hidden kind)
+    return res, nact, nrej
+
+
 def gen_offsets():
     txt = open(os.path.join(common.gen_dir(), "Gen_rootq.v")).read()
     import re
